@@ -37,6 +37,8 @@ type simListener struct {
 	backlog chan net.Conn
 	closed  chan struct{}
 	once    sync.Once
+
+	noUnlink bool
 }
 
 type netState struct {
@@ -231,7 +233,7 @@ func (l *simListener) Close() error {
 			}
 			break
 		}
-		if _, err := os.Lstat(l.path); err == nil {
+		if _, err := os.Lstat(l.path); err == nil && !l.noUnlink {
 			gen := MarkerGen(l.path)
 			os.Remove(l.path)
 			s.net().add(s, NetEvent{Kind: "close-unlink", Proc: proc, Path: l.path, Gen: gen})
@@ -242,6 +244,9 @@ func (l *simListener) Close() error {
 	}
 	return nil
 }
+
+// SetUnlinkOnClose mirrors (*net.UnixListener).SetUnlinkOnClose.
+func (l *simListener) SetUnlinkOnClose(unlink bool) { l.noUnlink = !unlink }
 
 func (l *simListener) Addr() net.Addr { return &net.UnixAddr{Name: l.path, Net: "unix"} }
 
